@@ -950,9 +950,13 @@ pub fn progress(trace: &[Value]) -> Vec<Value> {
                 }));
                 // a handshaking side that still owes handshake CRYPTO data, has nothing of the
                 // handshake in flight, no timer, and only (unacknowledgeable) 1-RTT packets in flight
+                // ... or (the client's side of the same thing: its lost Finished) an established side in
+                // that position whose window has no room for another datagram: its probe timer keeps
+                // firing for the Data space, where nothing can be acknowledged before the peer completes
                 let starved = e["conns"].as_array().is_some_and(|a| a.iter().any(|c| {
-                    c["st"] == 0 && c["pcrypto"].as_i64().unwrap_or(0) > 0 && c["hsout"] == 0
-                        && c["tm0"] == -1 && c["tm6"] == -1 && c["ifae"].as_i64().unwrap_or(0) > 0
+                    let owes = c["pcrypto"].as_i64().unwrap_or(0) > 0 && c["hsout"] == 0 && c["ifae"].as_i64().unwrap_or(0) > 0;
+                    let no_room = c["cwnd"].as_i64().unwrap_or(1 << 40) - c["ifb"].as_i64().unwrap_or(0) <= 1200;
+                    owes && ((c["st"] == 0 && c["tm0"] == -1 && c["tm6"] == -1) || (c["st"] == 1 && no_room))
                 }));
                 out.push(json!({"ev":"End","t":e["t"],"done":e["apps_done"],"steps":e["steps"],"lost":lost,
                     "stuckpad":stuck,"hsstarved":starved}));
